@@ -47,7 +47,10 @@ RULE = ("Hypothesis strategies. hist: a state machine (20-30 steps) over Spectro
         "int64 ndarray / Python ints / strided and reversed views, outer container list or tuple, scalars as Python / numpy / "
         "int-vs-float, accommodated_spectra as tuple / list / 2-D ndarray, positional or keyword, defaults omitted. Ops = every "
         "public setter (wavelength_to_pixel, min_bins_per_pixel, diffraction_order, grating, focal_length, pixel_spacing, "
-        "diffraction_angle, accommodated_spectra, filters, min_bins_per_window, name), rejected setter values, in-place "
+        "diffraction_angle, accommodated_spectra, filters, min_bins_per_window, name), re-assignments of every float-valued "
+        "parameter (pixel edges, grating, focal length, pixel spacing, angle, start wavelengths, filter wavelengths) to its "
+        "current value times (1 +- eps, 4 eps, 1e-9, 2e-6, 1e-3), 1-4 in a row, arrays that share first edge, last edge and "
+        "length but differ inside (with a true duplicate as control), rejected setter values, in-place "
         "modification of the containers the caller handed in, and reads of an ordered subset of min/max_wavelength, "
         "spectral_bins, wavelengths, wavelength_to_pixel, pipeline_classes, pipeline_kwargs, create_pipelines(), calibrate(), "
         "resolution(); every read is compared with an instrument constructed directly (canonical float64 lists, positional) "
@@ -133,6 +136,12 @@ REQUIRED_LABELS = (["hist:kind:spectrometer", "hist:kind:czerny", "hist:kind:pol
                     "ineq:ct:angle:acute", "ineq:ct:angle:near90", "ineq:ct:angle:obtuse",
                     "calib:ct:angle:acute", "calib:ct:angle:near90", "calib:ct:angle:obtuse",
                     "ineq:ct:narrowest:first", "ineq:ct:narrowest:last",
+                    "ineq:arr:twins", "calib:arr:twins", "calib:arr:duplicate",
+                    "hist:nudge:spectrometer.wavelength_to_pixel", "hist:nudge:czerny.grating", "hist:nudge:czerny.focal_length",
+                    "hist:nudge:czerny.pixel_spacing", "hist:nudge:czerny.diffraction_angle",
+                    "hist:nudge:czerny.accommodated_spectra", "hist:nudge:poly.filters",
+                    "hist:nudge:rel:2.22045e-16", "hist:nudge:rel:8.88178e-16", "hist:nudge:rel:2e-06", "hist:nudge:rel:1e-09",
+                    "hist:nudge:rel:0.001",
                     "ineq:kind:spectrometer", "ineq:kind:czerny", "ineq:kind:poly",
                     "ineq:arr:nested", "ineq:arr:descending", "ineq:arr:duplicate", "ineq:arr:touching", "ineq:arr:enclosing-later",
                     "ineq:widths:almost", "ineq:widths:uneven", "ineq:filter:trap", "ineq:filter:gen", "ineq:filter:same",
@@ -201,8 +210,19 @@ def layout(draw, max_pix=40):
     arrs = draw(st.lists(edges_one(max_pix), min_size=1, max_size=3))
     if len(arrs) == 1:
         return arrs
-    how = draw(st.sampled_from(["free", "free", "nested", "nested", "descending", "ascending", "touching", "duplicate"]))
-    if how == "duplicate":
+    how = draw(st.sampled_from(["free", "free", "nested", "nested", "descending", "ascending", "touching", "duplicate",
+                                "twins", "twins"]))
+    if how == "twins":          # same first edge, last edge and length, other interior edges (+ a true duplicate as control)
+        a = arrs[0]
+        if len(a) < 3:
+            a = [a[0], a[0] + 0.4 * (a[-1] - a[0]), a[-1]] if len(a) == 2 else a
+        n = len(a) - 1
+        wmin = min(y - x for x, y in zip(a[:-1], a[1:]))
+        q = draw(st.sampled_from([-1.0, 1.0])) * draw(_logu(1e-6, 0.4)) * wmin / n
+        b = [x + q * i * (n - i) for i, x in enumerate(a)]
+        b[0], b[-1] = a[0], a[-1]
+        arrs = [a, b] + ([list(a)] if draw(st.booleans()) else [])
+    elif how == "duplicate":
         arrs[1] = list(arrs[0])
     elif how == "touching":
         arrs[1] = _shift(arrs[1], arrs[0][-1] - arrs[1][0])
@@ -220,7 +240,7 @@ def layout(draw, max_pix=40):
             out.append(_shift(e, pos - e[0]))
             pos = out[-1][-1] + draw(_logu(0.01, 50.0))
         arrs = out[::-1] if how == "descending" else out
-    if how in ("nested", "touching", "duplicate", "free"):
+    if how in ("nested", "touching", "duplicate", "free", "twins"):
         arrs = [arrs[i] for i in draw(st.permutations(list(range(len(arrs)))))]
     for e in arrs:      # shifting can merge two neighbouring edges only if a width is below 1 ulp: never here, but keep run() safe
         if any(b <= a for a, b in zip(e[:-1], e[1:])):
@@ -776,6 +796,8 @@ def arrangement_labels(kind, p):
                 continue
             if list(e[i]) == list(e[j]):
                 out.add("arr:duplicate")
+            elif e[i][0] == e[j][0] and e[i][-1] == e[j][-1] and len(e[i]) == len(e[j]):
+                out.add("arr:twins")
             elif e[i][0] >= e[j][0] and e[i][-1] <= e[j][-1]:
                 out.add("arr:nested")
             if e[i][0] == e[j][-1]:
@@ -816,6 +838,24 @@ def _with_sc(strategy_fn):
     return lambda: st.fixed_dictionaries({"v": strategy_fn(), "sc": _sc_form})
 
 
+_E = float(np.finfo(float).eps)
+NUDGES = [_E, 4 * _E, 2e-6, 1e-9, 1e-3]       # relative re-assignments of a numeric parameter (fit / fine-tuning loops)
+NUDGE_TARGETS = {"spectrometer": ["wavelength_to_pixel"],
+                 "czerny": ["grating", "focal_length", "pixel_spacing", "diffraction_angle", "accommodated_spectra"],
+                 "poly": ["filters"]}
+CT_KEYS = {"grating": "grating", "focal_length": "focal_length", "pixel_spacing": "pixel_spacing", "diffraction_angle": "angle"}
+
+
+def nudged_spec(s, f):
+    s = dict(s)
+    if s["t"] == "trap":
+        s["c"] = s["c"] * f
+    elif s["t"] == "gen":
+        s["wl"] = [x * f for x in s["wl"]]
+        s["form"] = dict(s.get("form", {}), arr="list")
+    return s
+
+
 INVALID = {
     "spectrometer": [("wavelength_to_pixel", [[400.0, 401.0, 401.0]]), ("wavelength_to_pixel", [[400.0, 402.0], [500.0]]),
                      ("wavelength_to_pixel", [[400.0, 399.0]]), ("wavelength_to_pixel", [[[400.0, 401.0]]]),
@@ -845,6 +885,9 @@ class Hist:
         "set_invalid": lambda: st.integers(0, 59),
         "mutate_owned": lambda: st.fixed_dictionaries({"how": st.integers(0, 5), "acc": st.just(not _open(F_ACC)),
                                                        "fil": st.just(not _open(F_FIL))}),
+        "nudge": lambda: st.fixed_dictionaries({"which": st.integers(0, 11), "sc": _sc_form,
+                                               "rel": st.lists(st.tuples(st.sampled_from([-1.0, 1.0]), st.sampled_from(NUDGES)).map(list),
+                                                               min_size=1, max_size=4)}),
         "other_spectrometer": _other_arg("spectrometer"),
         "other_czerny": _other_arg("czerny"),
         "other_poly": _other_arg("poly"),
@@ -1124,6 +1167,51 @@ class Hist:
         for attr, key, v in steps:
             self._set(attr, key, v, arg_for_setter=sc_float(v, sc))
         self.flags.add(angle_class(arg["angle"]))
+
+    def do_nudge(self, arg):
+        """A numeric parameter is re-assigned to its current value times (1 +- tiny), several times in a row: every
+        re-assignment is a parameter change, the instrument must equal one built directly with the final value."""
+        self._ensure()
+        if self.dead:
+            return
+        targets = NUDGE_TARGETS[self.kind]
+        attr = targets[int(arg["which"]) % len(targets)]
+        sc = arg.get("sc", "py")
+        for sign, rel in arg["rel"]:
+            f = 1.0 + float(sign) * float(rel)
+            if attr == "wavelength_to_pixel":
+                w2p = [[x * f for x in e] for e in self.p["w2p"]]
+                if any(b <= a for e in w2p for a, b in zip(e[:-1], e[1:])):
+                    self.n_skipped += 1
+                    continue
+                formed = tuple(list(e) for e in w2p)
+                self._set(attr, "w2p", w2p, arg_for_setter=formed, owned={"w2p": formed})
+            elif attr == "accommodated_spectra":
+                acc = [[l0 * f, n] for l0, n in self.p["acc"]]
+                trial = dict(self.p, acc=acc)
+                if not ct_valid(trial):
+                    self.n_skipped += 1
+                    continue
+                formed = _acc(acc)
+                self._set(attr, "acc", acc, arg_for_setter=formed, owned={"acc": formed})
+            elif attr == "filters":
+                specs = [nudged_spec(s, f) for s in self.p["filters"]]
+                with self.ctx.cut("construct-filter"):
+                    new = build_filters(specs)
+                self.filters = new
+                formed = list(new)
+                self._set(attr, "filters", specs, arg_for_setter=formed, owned={"filters": formed})
+            else:
+                key = CT_KEYS[attr]
+                v = self.p[key] * f
+                trial = dict(self.p)
+                trial[key] = v
+                if not ct_valid(trial):
+                    self.n_skipped += 1
+                    continue
+                self._set(attr, key, v, arg_for_setter=sc_float(v, sc))
+            self.flags.add("nudge:%s.%s" % (self.kind, attr))
+            self.flags.add("nudge:rel:%g" % float(rel))
 
     def pre_set_filters(self):
         return self.kind == "poly"
@@ -1569,6 +1657,8 @@ def run_calib(case, ctx):
     ctx.label("range:" + rng, "spectra:%d" % len(edges), "samples:" + case["samples"]["kind"])
     wc = width_class([(a, b) for e in edges for a, b in zip(e[:-1], e[1:])])
     ctx.label("widths:" + wc)
+    if lay["kind"] == "edges":
+        ctx.label(*arrangement_labels("spectrometer", {"w2p": edges}))
     shapes = [len(e) - 1 for e in edges]
     delta = (smax - smin) / bins
 
